@@ -2398,6 +2398,7 @@ impl XmlElement {
     }
 
     pub fn append_attribute(&mut self, attr: Rc<XmlItem>) {
+        attr.set_parent_id(Some(self.id()));
         self.attributes.push(attr);
         self.context.ordering.borrow_mut().invalidate();
     }
@@ -2437,6 +2438,7 @@ impl XmlElement {
         {
             self.attributes
                 .retain(|v| v.as_attribute().unwrap().borrow().local_name() != name);
+            v.set_parent_id(None);
             self.context.ordering.borrow_mut().invalidate();
             Some(v)
         } else {
